@@ -86,3 +86,28 @@ def is_concrete_str(s):
     from crosshair.tracers import NoTracing
     with NoTracing():
         return type(s) is str
+
+
+class scanner_env:
+    """Environment of gherkin.token_scanner for one harness call.  `os.path.exists` always answers `exists` (so that a
+    counterexample text is never looked up on the real disk); under CrossHair `io` is additionally replaced by the
+    pure-Python contract model kit.pyio (the real io.StringIO is a C object), in replay mode the real io is used."""
+
+    def __init__(self, exists=False):
+        self.exists = exists
+
+    def __enter__(self):
+        import gherkin.token_scanner as ts
+        from . import pyio
+        self.ts = ts
+        self.saved = {k: getattr(ts, k) for k in ("io", "os") if hasattr(ts, k)}
+        if "os" in self.saved:
+            ts.os = pyio.OS(self.exists)
+        if SYMBOLIC and "io" in self.saved:
+            ts.io = pyio
+        return self
+
+    def __exit__(self, *a):
+        for k, v in self.saved.items():
+            setattr(self.ts, k, v)
+        return False
